@@ -150,6 +150,8 @@ fn cli_case(ctx: &Ctx, st: &mut Stats, text: &str) {
     let free = ast.free_names();
     let bin = ctx.bin("rsbdd");
     for flt in ["t", "f", "any", "True", "0"] {
+        // what `-c flt -t` prints as the retained diagram (filled in by the run without -f)
+        let mut retained: Option<Tt> = None;
         // the display filter (-f) must not change which direction -c is sound in
         for show in [None, Some("t"), Some("f")] {
             st.evals += 1;
@@ -231,6 +233,43 @@ fn cli_case(ctx: &Ctx, st: &mut Stats, text: &str) {
             } else if show.is_none() && trues != want {
                 st.nt.insert(mix(util::hash_str(text), util::hash_str(flt)));
                 st.bump("cli_results_with_dropped_choices");
+            }
+            if show.is_none() {
+                retained = Some(trues.clone());
+            }
+        }
+        // together with -m: what is printed is a model OF THE RETAINED diagram
+        if let Some(r) = retained {
+            st.evals += 1;
+            st.bump("cli_runs_with_model");
+            let args = vec![format!("--evaluate={}", text), "-c".to_string(), flt.to_string(), "-m".to_string(), "-t".to_string()];
+            let out = cli::run(&bin, &args, None, None, Some((20_000_000, 10_000)), Duration::from_secs(60));
+            let case = json!({"kind": "cli", "text": text});
+            if out.timed_out || out.budget_exceeded() || !out.ok() {
+                continue;
+            }
+            let so = out.stdout_str();
+            let lines: Vec<&str> = so.lines().collect();
+            let Ok((table, _)) = cli::parse_table(&lines) else { continue };
+            let n = names.len() as u32;
+            let mut shown = Tt::constant(n, false);
+            for (cells, res) in &table.rows {
+                if !*res {
+                    continue;
+                }
+                let mut cover = Tt::constant(n, true);
+                for (h, c) in table.header.iter().zip(cells.iter()) {
+                    let Some(i) = names.iter().position(|x| x == h) else { continue };
+                    match c {
+                        cli::Cell::True => cover = cover.and(&Tt::var(n, i as u32)),
+                        cli::Cell::False => cover = cover.and(&Tt::var(n, i as u32).not()),
+                        cli::Cell::Any => {}
+                    }
+                }
+                shown = shown.or(&cover);
+            }
+            if !shown.leq(&r) || (shown.is_false() != r.is_false()) {
+                st.violate("c20.cli", format!("C20:cli:-c-{}-with-m:not-a-model-of-the-retained-diagram", flt), format!("rsbdd -e `{}` -c {} -m -t prints true rows that are not (all) rows of what `-c {} -t` prints\n{}", text, flt, flt, so), case);
             }
         }
     }
